@@ -51,6 +51,13 @@ def oracle(line):
         for b in range(int(t[2])):
             h.update(long_block(b, int(t[3])))
         return "L %s %s" % (t[1], h.hexdigest())
+    if op == "G":
+        n, seed = int(t[2]), int(t[3])
+        pat = bytes(((k * 131 + seed) & 255) for k in range(256))
+        h = hashlib.new(t[1])
+        h.update(pat * (n // 256))
+        h.update(pat[:n % 256])
+        return "G %s %s" % (t[1], h.hexdigest())
     return "?"
 
 
@@ -226,6 +233,9 @@ def run(chk):
     # the two algorithms that have a split counter; started now, collected after the model run.
     mib = {alg: (513 if (thorough or alg in ("sha1", "md5")) else 3) for alg in ALGS}
     longs = ["L %s %d %d" % (alg, mib[alg], chk.rng.randrange(256)) for alg in ALGS]
+    # one single update of 2^29 + 57 bytes: the bit count overflows 32 bits inside ONE call (the 1 MiB stream above
+    # never does that); sha1 and md5 (split counters) in the quick tier, all four in the thorough tier
+    longs += ["G %s %d %d" % (alg, (1 << 29) + 57, chk.rng.randrange(256)) for alg in ALGS if (thorough or alg in ("sha1", "md5"))]
     pool = ThreadPoolExecutor(max_workers=8)
     long_out = [pool.submit(lambda l=l: vlib.run_lines(exe, [l], timeout=1500, per_case_timeout=1500)[0]) for l in longs]
     long_exp = [pool.submit(oracle, l) for l in longs]
@@ -283,7 +293,7 @@ def replay(path):
         return 1
     exe = build_exe()
     impl = vlib.run_lines(exe, [case], timeout=1500, per_case_timeout=1500)[0]
-    if case.startswith("L"):
+    if case.startswith("L") or case.startswith("G"):
         model = "(not run: covered by theorem)"
     else:
         try:
